@@ -130,15 +130,39 @@ fn empties(m: &Model, ctx: &mut Ctx, consts: &dyn Fn(&str) -> Option<Val>) {
                         None
                     };
                     let ev = Evaluator { consts, call_hook: &hook, inline: None };
-                    let mut env = Env::new();
-                    env.insert("ty".into(), Val::Opaque("ty".into()));
-                    match ev.select_arm(&mt, &variant_val(values, v), &env) {
-                        Ok((i, _)) => {
-                            if is_empty_result(&tok(&mt.arms[i].body)) {
-                                silent.insert(v.clone());
+                    // the value with its string payloads spelled out, under a governing type that is a builtin type / a reference
+                    // named like one of those payloads (an enumeral under its own ENUMERATED type) / a reference to another name
+                    let mut value = variant_val(values, v);
+                    let mut names: Vec<String> = vec!["Governor".into()];
+                    if let Val::Ctor(_, _, fm) = &mut value {
+                        for (fname, fty) in values.variant_fields.get(v).cloned().unwrap_or_default() {
+                            if fty.replace(' ', "") == "String" {
+                                fm.insert(fname.clone(), Val::Str(fname.clone()));
+                                names.push(fname);
                             }
                         }
-                        Err(e) => ctx.fail_closed("C10.empty", &format!("generate_value:{}: {}", v, e)),
+                    }
+                    let governors: Vec<Val> = if builtin { vec![Val::Ctor("Boolean".into(), vec![Val::Opaque("payload".into())], BTreeMap::new())] } else {
+                        names.iter().map(|n| {
+                            let mut d = BTreeMap::new();
+                            d.insert("identifier".to_string(), Val::Str(n.clone()));
+                            d.insert("module".to_string(), Val::none());
+                            d.insert("parent".to_string(), Val::none());
+                            d.insert("constraints".to_string(), Val::List(vec![]));
+                            Val::Ctor("ElsewhereDeclaredType".into(), vec![Val::Ctor("DeclarationElsewhere".into(), vec![], d)], BTreeMap::new())
+                        }).collect()
+                    };
+                    for ty in governors {
+                        let mut env = Env::new();
+                        env.insert("ty".into(), ty);
+                        match ev.select_arm(&mt, &value, &env) {
+                            Ok((i, _)) => {
+                                if is_empty_result(&tok(&mt.arms[i].body)) {
+                                    silent.insert(v.clone());
+                                }
+                            }
+                            Err(e) => ctx.fail_closed("C10.empty", &format!("generate_value:{}: {}", v, e)),
+                        }
                     }
                 }
             }
